@@ -31,8 +31,8 @@ def harnesses():
         for w, fn in enumerate(["checked_log", "log", "log10"]):
             if w == 2 and b < 4:
                 continue
-            out.append(H("c13_log_narrow_%d_%s" % (b, fn), "C13", "c13::log_narrow::<%d,%d>" % (b, w), unwind=max(b + 3, 11),
-                         tier="quick" if b in (4,) else "thorough", timeout=3600, stubs=[FMT] + MULSPEC + FLT,
+            out.append(H("c13_log_narrow_%d_%s" % (b, fn), "C13", "c13::log_narrow::<%d,%d>" % (b, w), unwind=(4 if b <= 4 else 5),
+                         tier="quick" if (b == 3 and w == 1) else "thorough", timeout=3600, stubs=[FMT] + MULSPEC + FLT,
                          inst="Uint<%d,1>" % b, role="c13::log_narrow." + fn,
                          domain="every (value, base) pair of the width; compositional: multipliers replaced by their specification, "
                                 "f64::exp2/log2 by exact models on the integer arguments that occur (any other argument fails the harness)",
